@@ -16,6 +16,7 @@ pub uninterp spec fn bf_seq(s: vstd::set::Set<u64>) -> Seq<u64>;
 pub open spec fn bf_seq_ok(s: vstd::set::Set<u64>) -> bool {
     &&& forall|x: u64| bf_seq(s).contains(x) <==> s.contains(x)
     &&& forall|i: int, j: int| 0 <= i < j < bf_seq(s).len() ==> bf_seq(s)[i] < bf_seq(s)[j]
+    &&& bf_seq(s).len() == s.len()          // as many items as `BitField::len()` counts
 }
 impl BitField {
     #[verifier::external_body]
@@ -58,20 +59,38 @@ impl State {
 // empty per-provider maps, so "absent" and "empty" are not distinguishable through it).
 pub uninterp spec fn sector_deals_of(root: Cid, provider: ActorID, sector: SectorNumber) -> Seq<DealID>;
 
-/// std BTreeMap<ActorID, BTreeMap<SectorNumber, Vec<DealID>>> as used for `provider_deals_to_remove`: only what is
-/// queued matters — `q@.contains((p, s, d))` iff `d` is in the list under [p][s].
+/// std BTreeMap<SectorNumber, Vec<DealID>> and BTreeMap<ActorID, BTreeMap<SectorNumber, Vec<DealID>>> as used for
+/// `provider_deals_to_remove`, viewed as (nested) finite maps. `vx_at(k)` stands for `entry(k).or_default()`: a mutable
+/// reference to the value stored under `k`, a default (empty) value being inserted first when there is none — the
+/// helper bodies ARE that expression (vx substitutes `.entry` => `.vx_at` and drops `.or_default()`).
 #[verifier::external_body]
-pub struct DealsToRemove { inner: BTreeMap<ActorID, BTreeMap<SectorNumber, Vec<DealID>>> }
-impl View for DealsToRemove { type V = vstd::set::Set<(ActorID, SectorNumber, DealID)>; uninterp spec fn view(&self) -> vstd::set::Set<(ActorID, SectorNumber, DealID)>; }
+pub struct SectorQueue { inner: BTreeMap<SectorNumber, Vec<DealID>> }
+impl View for SectorQueue { type V = Map<SectorNumber, Seq<DealID>>; uninterp spec fn view(&self) -> Map<SectorNumber, Seq<DealID>>; }
+impl SectorQueue {
+    #[verifier::external_body]
+    pub fn vx_at(&mut self, s: SectorNumber) -> (r: &mut Vec<DealID>)
+        ensures
+            r@ == (if old(self)@.dom().contains(s) { old(self)@[s] } else { Seq::<DealID>::empty() }),
+            final(self)@ == old(self)@.insert(s, final(r)@),
+    { self.inner.entry(s).or_default() }
+}
+#[verifier::external_body]
+pub struct DealsToRemove { inner: BTreeMap<ActorID, SectorQueue> }
+impl View for DealsToRemove { type V = Map<ActorID, Map<SectorNumber, Seq<DealID>>>; uninterp spec fn view(&self) -> Map<ActorID, Map<SectorNumber, Seq<DealID>>>; }
 impl DealsToRemove {
     /// `BTreeMap::new()`
     #[verifier::external_body]
-    pub fn new() -> (r: Self) ensures r@ == vstd::set::Set::<(ActorID, SectorNumber, DealID)>::empty() { unimplemented!() }
-    /// `m.entry(p).or_default().entry(s).or_default().push(d)` — the helper's body IS that expression
+    pub fn new() -> (r: Self) ensures r@ == Map::<ActorID, Map<SectorNumber, Seq<DealID>>>::empty() { unimplemented!() }
     #[verifier::external_body]
-    pub fn vx_queue(&mut self, p: ActorID, s: SectorNumber, d: DealID)
-        ensures final(self)@ == old(self)@.insert((p, s, d))
-    { self.inner.entry(p).or_default().entry(s).or_default().push(d) }
+    pub fn vx_at(&mut self, p: ActorID) -> (r: &mut SectorQueue)
+        ensures
+            r@ == (if old(self)@.dom().contains(p) { old(self)@[p] } else { Map::<SectorNumber, Seq<DealID>>::empty() }),
+            final(self)@ == old(self)@.insert(p, final(r)@),
+    { unimplemented!() }
+}
+/// deal `d` is queued for removal from the list of (provider `p`, sector `s`)
+pub open spec fn queued(q: Map<ActorID, Map<SectorNumber, Seq<DealID>>>, p: ActorID, s: SectorNumber, d: DealID) -> bool {
+    q.dom().contains(p) && q[p].dom().contains(s) && q[p][s].contains(d)
 }
 impl State {
     /// state.rs remove_sector_deal_ids: for every queued (provider, sector) whose list exists, the list is replaced by
@@ -82,7 +101,7 @@ impl State {
         ensures
             r.is_ok() ==> *final(self) == (State { provider_sectors: final(self).provider_sectors, ..*old(self) }),
             r.is_ok() ==> forall|p: ActorID, s: SectorNumber, d: DealID| #[trigger] sector_deals_of(final(self).provider_sectors, p, s).contains(d)
-                <==> sector_deals_of(old(self).provider_sectors, p, s).contains(d) && !provider_sector_deal_ids@.contains((p, s, d)),
+                <==> sector_deals_of(old(self).provider_sectors, p, s).contains(d) && !queued(provider_sector_deal_ids@, p, s, d),
             r.is_err() ==> *final(self) == *old(self),
     { unimplemented!() }
 }
